@@ -329,8 +329,8 @@ package controller
 //@   ensures [C05,C07] Jlen > old(Jlen) && Jkind[Jlen - 1] == C_INCREASE && !dry(c, opts.nodeGroup) ==> Jnum[Jlen - 1] == min(opts.nodesDelta - ((nGet - old(nGet)) - (nKFail - old(nKFail))), min(opts.nodeGroup.Opts.MaxNodes, cmax(gid(opts.nodeGroup))) - tgt(gid(opts.nodeGroup)))
 //@   ensures [C07] Jlen > old(Jlen) && Jkind[Jlen - 1] == C_INCREASE && !dry(c, opts.nodeGroup) ==> (forall i :: 0 <= i && i < len(opts.taintedNodes) && k8s.hasEsc(opts.taintedNodes[i]) ==> getSeen[opts.taintedNodes[i].Name])
 //@   ensures [C02,C18] (Jlen > old(Jlen) && Jkind[Jlen - 1] == C_INCREASE && Jok[Jlen - 1]) ==> opts.nodeGroup.scaleUpLock.isLocked && opts.nodeGroup.scaleUpLock.lockTime == clock
-//@   ensures [C02,C18] !(Jlen > old(Jlen) && Jkind[Jlen - 1] == C_INCREASE && Jok[Jlen - 1]) && !dry(c, opts.nodeGroup) ==> opts.nodeGroup.scaleUpLock.isLocked == old(opts.nodeGroup.scaleUpLock.isLocked) && opts.nodeGroup.scaleUpLock.lockTime == old(opts.nodeGroup.scaleUpLock.lockTime) && opts.nodeGroup.scaleUpLock.requestedNodes == old(opts.nodeGroup.scaleUpLock.requestedNodes)
-//@   ensures [C18] err != nil ==> opts.nodeGroup.scaleUpLock.isLocked == old(opts.nodeGroup.scaleUpLock.isLocked) && opts.nodeGroup.scaleUpLock.lockTime == old(opts.nodeGroup.scaleUpLock.lockTime)
+//@   ensures [C02,C18,C20] !(Jlen > old(Jlen) && Jkind[Jlen - 1] == C_INCREASE && Jok[Jlen - 1]) && !dry(c, opts.nodeGroup) ==> opts.nodeGroup.scaleUpLock.isLocked == old(opts.nodeGroup.scaleUpLock.isLocked) && opts.nodeGroup.scaleUpLock.lockTime == old(opts.nodeGroup.scaleUpLock.lockTime) && opts.nodeGroup.scaleUpLock.requestedNodes == old(opts.nodeGroup.scaleUpLock.requestedNodes)
+//@   ensures [C18,C20] err != nil ==> opts.nodeGroup.scaleUpLock.isLocked == old(opts.nodeGroup.scaleUpLock.isLocked) && opts.nodeGroup.scaleUpLock.lockTime == old(opts.nodeGroup.scaleUpLock.lockTime)
 //@   ensures opts.nodeGroup.scaleUpLock.minimumLockDuration == old(opts.nodeGroup.scaleUpLock.minimumLockDuration)
 
 // scaleDownTaint. C03: never more successful taints than untainted - min_nodes; refuses below the minimum.
